@@ -5,6 +5,7 @@ import Driver.PathGuard
 import Driver.Sandbox
 import Driver.Audit
 import Driver.Migrate
+import Driver.Canon
 open Sfw
 
 /-- a suite is a state machine over protocol lines -/
@@ -23,6 +24,7 @@ def dispatch (suite : String) : Option Suite :=
   | "sandbox" => some (pureSuite Driver.sandboxStep)
   | "audit" => some (pureSuite Driver.auditStep)
   | "migrate" => some { σ := Sfw.Migrate.JsonDb, init := Sfw.Migrate.JsonDb.empty, step := Driver.migrateStep }
+  | "canon" => some { σ := Driver.CanonState, init := Driver.CanonState.init, step := Driver.canonStep }
   | "store" => some { σ := Sfw.Store.KV, init := Sfw.Store.init, step := Driver.storeStep }
   | _ => none
 
